@@ -810,6 +810,17 @@ def apply_rewrites(text, rewrites):
             if text.count(old) != 1:
                 raise Undecided(f"SUB anchor `{old[:40]}` occurs {text.count(old)} times")
             text = text.replace(old, new)
+        elif rw[0] == "SUBRE":   # declared regex substitution (must match exactly once; groups may be reused in the replacement) -- reported in evidence
+            import re as _re
+            pat, new = rw[1], rw[2]
+            n = len(_re.findall(pat, text))
+            if n != 1:
+                raise Undecided(f"SUBRE anchor `{pat[:40]}` occurs {n} times")
+            m = _re.search(pat, text)
+            rep = new
+            for gi in range(1, (m.lastindex or 0) + 1):
+                rep = rep.replace("${%d}" % gi, m.group(gi) or "")
+            text = text[:m.start()] + rep + text[m.end():]
         else:
             raise Undecided(f"unknown rewrite {rw[0]}")
     return text
@@ -1009,6 +1020,75 @@ def annotate_fn(f, override_requires=None, canary=False, drop_body=False):
                     break
                 m += 1
             ed.insert(toks[body_first].start, ann + "            { ")
+            ed.insert(toks[m - 1].end, " }")
+
+    # ---- rule R22 CLOSUREPAT: a closure that carries no contract and binds its argument by a pattern (`|(k, v)| e`, `|&x| e`) is given
+    # a plain parameter and the pattern is bound by a `let` at the top of its body (Verus accepts only variables as closure parameters)
+    spec_idx = {cl.index for cl in f.closures}
+    for ci, k in enumerate(cls):
+        if ci in spec_idx or toks[k].text != "|":
+            continue
+        m = k + 1
+        params, cur = [], []
+        while toks[m].text != "|":
+            if toks[m].text in OPEN:
+                mc = match_close(toks, m)
+                cur.extend(range(m, mc + 1)); m = mc + 1
+                continue
+            if toks[m].text == ",":
+                params.append(cur); cur = []
+            else:
+                cur.append(m)
+            m += 1
+        if cur:
+            params.append(cur)
+        bar_close = m
+        lets, new_params, changed = [], [], False
+        for pi, idxs in enumerate(params):
+            # split pattern / type at the top-level `:`
+            depth_colon = None
+            j = 0
+            while j < len(idxs):
+                tt = toks[idxs[j]].text
+                if tt in OPEN:
+                    mc = match_close(toks, idxs[j])
+                    while j < len(idxs) and idxs[j] <= mc:
+                        j += 1
+                    continue
+                if tt == ":":
+                    depth_colon = j
+                    break
+                j += 1
+            pat_idx = idxs if depth_colon is None else idxs[:depth_colon]
+            ty_idx = [] if depth_colon is None else idxs[depth_colon + 1:]
+            pat_txt = text[toks[pat_idx[0]].start:toks[pat_idx[-1]].end]
+            ty_txt = text[toks[ty_idx[0]].start:toks[ty_idx[-1]].end] if ty_idx else ""
+            simple = (len(pat_idx) == 1 and toks[pat_idx[0]].kind == "ident" and pat_txt != "_") or \
+                     (len(pat_idx) == 2 and toks[pat_idx[0]].text == "mut" and toks[pat_idx[1]].kind == "ident")
+            if simple:
+                new_params.append(pat_txt + (": " + ty_txt if ty_txt else ""))
+            else:
+                changed = True
+                nm = f"__cp{ci}_{pi}"
+                new_params.append(nm + (": " + ty_txt if ty_txt else ""))
+                if pat_txt != "_":
+                    lets.append(f"let {pat_txt} = {nm};")
+        if not changed:
+            continue
+        ed.replace(toks[k].start, toks[bar_close].end, "|" + ", ".join(new_params) + "|")
+        body_first = bar_close + 1
+        if toks[body_first].text == "{":
+            ed.insert(toks[body_first].end, " " + " ".join(lets) + " ")
+        else:
+            m = body_first
+            while m < len(toks):
+                if toks[m].text in OPEN:
+                    m = match_close(toks, m) + 1
+                    continue
+                if toks[m].text in (",", ")", "]", "}", ";"):
+                    break
+                m += 1
+            ed.insert(toks[body_first].start, "{ " + " ".join(lets) + " ")
             ed.insert(toks[m - 1].end, " }")
 
     # ---- injections
